@@ -1,1 +1,10 @@
-pub fn hi() {}
+//! Reference model for the jsonb verification harness.  This crate deliberately has NO
+//! dependency on the `jsonb` crate: it is written from README.md, the rustdoc comments,
+//! RFC 8259 and the property statements.
+pub mod gen;
+pub mod layout;
+pub mod ops;
+pub mod text;
+pub mod val;
+
+pub use val::{RNum, RVal};
